@@ -114,6 +114,10 @@ pub struct RelayCase {
     pub compress: u8,
     /// ask again after this many ms (served from cache: TTL ageing)
     pub requery_ms: Option<u16>,
+    /// the second query spells the name with the case of every letter flipped (what a client
+    /// doing 0x20 randomisation does); it must get *its own* question back, octet for octet
+    #[serde(default)]
+    pub requery_flip_case: bool,
 }
 
 fn query_edns_strategy() -> impl Strategy<Value = Option<dns::Edns>> {
@@ -156,6 +160,8 @@ pub fn relay_case_strategy(sz: MsgSize, allow_requery: bool) -> impl Strategy<Va
         },
     )
         .prop_map(|(qname, qtype, qclass, b, edns, mut reply, compress, requery_ms)| {
+            // derived from values already drawn, so that older replay files keep their meaning
+            let requery_flip_case = requery_ms.is_some() && (qtype ^ compress as u16) & 1 == 1;
             // the upstream is a recursive resolver answering a query: no TC games here
             reply.header.tc = false;
             reply.header.qr = true;
@@ -189,6 +195,7 @@ pub fn relay_case_strategy(sz: MsgSize, allow_requery: bool) -> impl Strategy<Va
                 reply,
                 compress,
                 requery_ms,
+                requery_flip_case,
             }
         })
 }
@@ -203,6 +210,8 @@ pub struct Exchange {
     pub got: Vec<Got>,
     pub upstream_sent: dns::Message,
     pub second: Option<(Vec<Got>, Duration)>,
+    /// the question of the second query (differs from `question` in letter case only)
+    pub second_question: Option<dns::Question>,
     pub upstream_count: usize,
     pub err: Option<String>,
 }
@@ -268,6 +277,7 @@ impl<'a> C03Relay<'a> {
             got: vec![],
             upstream_sent: sent,
             second: None,
+            second_question: None,
             upstream_count: 0,
             err: None,
         };
@@ -283,9 +293,33 @@ impl<'a> C03Relay<'a> {
             std::thread::sleep(Duration::from_millis(ms as u64));
             let mut q2 = q.clone();
             q2.header.id = qid.wrapping_add(1);
+            let mut question2 = question.clone();
+            if c.requery_flip_case {
+                for l in question2.name.iter_mut() {
+                    for b in l.iter_mut() {
+                        if b.is_ascii_alphabetic() {
+                            *b ^= 0x20;
+                        }
+                    }
+                }
+                q2.questions[0] = question2.clone();
+                // the same upstream answers the same thing whatever the spelling
+                up.set(
+                    qkey(&question2),
+                    Script {
+                        reply: Reply::Model(c.reply.clone(), compress),
+                        ..Default::default()
+                    },
+                );
+            }
             let b2 = dns::encode(&q2, dns::Compress::Off);
             if let Ok(g) = run(&b2) {
                 ex.second = Some((g, t0.elapsed()));
+                ex.second_question = Some(question2.clone());
+            }
+            if question2 != question {
+                ex.upstream_count = up.count_for(&qkey(&question)) + up.count_for(&qkey(&question2));
+                return ex;
             }
         }
         ex.upstream_count = up.count_for(&qkey(&question));
@@ -298,7 +332,7 @@ impl<'a> C03Relay<'a> {
             || !up.additional_no_opt().is_empty()
             || up.full_rcode() != 0
             || up.records().any(|r| !matches!(r.rdata, dns::RData::Raw(_)));
-        let judge_one = |g: &Got, qid: u16, elapsed_s: Option<f64>, out: &mut Outcome| {
+        let judge_one = |g: &Got, qid: u16, asked: &dns::Question, elapsed_s: Option<f64>, out: &mut Outcome| {
             let (r, _) = match dns::decode(&g.bytes) {
                 Ok(x) => x,
                 Err(e) => {
@@ -315,8 +349,8 @@ impl<'a> C03Relay<'a> {
                 out.fail("C03:not-a-response", "QR clear");
                 return;
             }
-            if r.questions != vec![ex.question.clone()] {
-                out.fail("C03:question-changed", format!("{:?} vs {:?}", r.questions, ex.question));
+            if r.questions != vec![asked.clone()] {
+                out.fail("C03:question-changed", format!("{:?} vs {:?}", r.questions, asked));
                 return;
             }
             if r.full_rcode() != up.full_rcode() && !r.header.tc {
@@ -388,7 +422,7 @@ impl<'a> C03Relay<'a> {
             out.fail("C03:no-reply", format!("no reply to {:?} over {}", ex.question, if c.tcp { "TCP" } else { "UDP" }));
             return;
         }
-        judge_one(&ex.got[0], ex.query_id, None, out);
+        judge_one(&ex.got[0], ex.query_id, &ex.question, None, out);
         if out.fail.is_some() {
             return;
         }
@@ -400,7 +434,11 @@ impl<'a> C03Relay<'a> {
                 if from_cache {
                     out.class("requery-from-cache");
                 }
-                judge_one(g, ex.query_id.wrapping_add(1), Some(dt.as_secs_f64() + 0.5), out);
+                let asked = ex.second_question.clone().unwrap_or_else(|| ex.question.clone());
+                if asked != ex.question {
+                    out.class("requery-in-another-letter-case");
+                }
+                judge_one(g, ex.query_id.wrapping_add(1), &asked, Some(dt.as_secs_f64() + 0.5), out);
             }
         }
     }
@@ -472,8 +510,26 @@ impl<'a> C03Relay<'a> {
                 }
             }
         } else {
-            // complete whenever it fits 65535 (it does: upstream replies are far smaller)
-            if r.header.tc || got_rec != nrec {
+            // complete whenever it fits a TCP frame; an upstream answer that only just fits may
+            // not fit any more once the forwarder's own OPT record is added, and is then cut to
+            // whole records with TC set
+            let may_not_fit = {
+                let mut m = ex.upstream_sent.clone();
+                m.questions = vec![ex.question.clone()];
+                dns::encode(&m, dns::Compress::All).len() + 11 + 64 > 65535
+            };
+            if may_not_fit {
+                out.class("tcp-answer-at-the-frame-limit");
+                out.nontrivial = true;
+                if g.bytes.len() > 65535 {
+                    out.fail("C04:tcp-frame-over-65535", format!("{} octets", g.bytes.len()));
+                    return;
+                }
+                if got_rec < nrec && !r.header.tc {
+                    out.fail("C04:records-dropped-without-tc", format!("{} of {} records over TCP, TC clear", got_rec, nrec));
+                    return;
+                }
+            } else if r.header.tc || got_rec != nrec {
                 out.fail(
                     "C04:tcp-response-truncated",
                     format!(
@@ -576,6 +632,38 @@ pub fn run_c04_wire(ctx: &Ctx) {
         max_records: 400,
         max_raw: 300,
     };
+    // the frame limit over TCP, octet by octet: one opaque record whose length sweeps a window
+    // in which the forwarder's own message (the upstream's plus its OPT record) passes 65535
+    for l in 65416usize..=65488 {
+        let case = RelayCase {
+            qname: vec![],
+            qtype: 1,
+            qclass: 1,
+            cd: false,
+            ad: false,
+            edns: if l % 2 == 0 { None } else { Some(dns::Edns { udp_size: 4096, ext_rcode: 0, version: 0, do_bit: false, options: vec![] }) },
+            tcp: true,
+            v4: l % 3 == 0,
+            reply: dns::Message {
+                header: dns::Header { qr: true, rd: true, ra: true, ..Default::default() },
+                answer: vec![dns::Rr { name: vec![b"x".to_vec()], rtype: 65280, class: 1, ttl: 60, rdata: dns::RData::Raw(vec![0xa5; l]) }],
+                ..Default::default()
+            },
+            compress: 0,
+            requery_ms: None,
+            requery_flip_case: false,
+        };
+        let out = exec_one(&prop, &case);
+        ctx.record(prop.sub(), &case, &out);
+        if let Some(f) = out.fail {
+            if ctx.is_known(&f.sig) {
+                ctx.known_hit(&f.sig);
+            } else {
+                ctx.violation(prop.sub(), &f, &case);
+                return;
+            }
+        }
+    }
     run_wire(ctx, &prop, relay_case_strategy(small, false), ctx.tier.pick(1_500, 60_000), 48);
     run_wire(ctx, &prop, relay_case_strategy(big, false), ctx.tier.pick(600, 20_000), 24);
 }
